@@ -16,7 +16,7 @@ def projects(tier, seed):
           fault.small_project(rnd, nfiles=3, stmts=(1, 4), structured=True, lock=core.lock_text(300), label="p1"),
           fault.small_project(rnd, nfiles=2, stmts=(1, 2), big=40000, use_cache=False, label="p2")]
     if tier == "thorough":
-        for j in range(8):
+        for j in range(60):
             ps.append(fault.small_project(rnd, nfiles=rnd.choice([2, 3, 4]), stmts=(1, 5), structured=rnd.random() < 0.5,
                                           lock=rnd.choice([None, core.lock_text(900)]), label="q%d" % j))
     return ps
@@ -27,7 +27,8 @@ def plan(proj, ops, tier, rnd):
     inj = []
     upd = [o for o in ops if fault.phase_of(o) in UPDATE_PHASES]
     cap = 60 if tier == "quick" else 400
-    pick = upd if len(upd) <= cap else [o for o in upd if o["kind"] != "write"] + rnd.sample([o for o in upd if o["kind"] == "write"], cap)
+    writes = [o for o in upd if o["kind"] == "write"]
+    pick = upd if len(upd) <= cap else [o for o in upd if o["kind"] != "write"] + rnd.sample(writes, min(cap, len(writes)))
     for o in pick:
         errs = {"openw": ["EIO", "ENOSPC", "EACCES"], "write": ["EIO", "ENOSPC"], "rename": ["EXDEV", "EACCES", "EIO"], "fsync": ["EIO"]}.get(o["kind"], [])
         for e in errs:
